@@ -45,6 +45,9 @@ pub enum P {
     JoinReq(S, S, S),
     /// async: spawn(child: req a -> event); select(jh, req b): child first -> mark m, b first -> event(b)
     SelectJoinReq(S, S, S),
+    /// async: jh = spawn(child: req a -> event); jh.abort() at once; jh.await; mark m  (abort before the
+    /// spawned task was ever polled: it must never run, and the waiter must be released)
+    AbortSpawned(S, S),
     /// `request(a).map(f).then_send(got)`
     ReqMap(S),
     /// `stream(a).map(f).then_send(got)`
@@ -132,7 +135,7 @@ impl P {
             | P::SelfWake(a, _) | P::Trigger(a, _) | P::SiblingAbort(a, _) => vec![a],
             P::ReqReq(a, b) | P::ReqStream(a, b) | P::StreamReq(a, b) | P::StreamStream(a, b)
             | P::Join(a, b) | P::Select(a, b) | P::SpawnJoin(a, b) | P::SpawnAfter(a, b) | P::Burst(a, b) | P::Channel(a, b)
-            | P::Unordered(a, b) | P::JoinTwice(a, b) | P::MixedNotify(a, b) => vec![a, b],
+            | P::Unordered(a, b) | P::JoinTwice(a, b) | P::MixedNotify(a, b) | P::AbortSpawned(a, b) => vec![a, b],
             P::AbortChild(a, b, c) | P::IntoFuture(a, b, c) | P::JoinReq(a, b, c) | P::SelectJoinReq(a, b, c) => vec![a, b, c],
             _ => vec![],
         }
@@ -230,6 +233,7 @@ pub fn async_atoms() -> Vec<P> {
         P::JoinTwice(s0(), s0()),
         P::IntoFuture(s0(), s0(), s0()),
         P::JoinReq(s0(), s0(), s0()),
+        P::AbortSpawned(s0(), s0()),
         P::SelectJoinReq(s0(), s0(), s0()),
     ]
 }
